@@ -4,10 +4,10 @@
 set -u
 P=$1; M=$2; shift 2
 CHECKS=${@:-$P}
-WT=/tmp/seed-$P
+R=${ROUND:-1}; if [ "$R" = "1" ]; then WT=/tmp/seed-$P; else WT=/tmp/seed$R-$P; fi
 OUT=$WT/_out/$M
-DEST=/verif/seeded/$P-$M
-LOG=/tmp/exp/seedtest-$P-$M.log
+if [ "${ROUND:-1}" = "1" ]; then DEST=/verif/seeded/$P-$M; else DEST=/verif/seeded/$P-r${ROUND}-$M; fi
+LOG=/tmp/exp/seedtest-${ROUND:-1}-$P-$M.log
 : > $LOG
 cd $WT || exit 3
 git checkout -- . >/dev/null 2>&1
